@@ -35,7 +35,8 @@ ENGINE = "solversim"
 # ------------------------------------------------------------------------- planning
 
 
-def gen_settings(rng: random.Random) -> Dict[str, Any]:
+def gen_settings(rng: random.Random, profile: Optional[Dict[str, Any]] = None) -> Dict[str, Any]:
+    profile = profile or {}
     small = lambda hi: rng.choice([1, 1, 2, 2, 3, 4, hi])
     s: Dict[str, Any] = {
         "max_number_free_instantiations": small(10),
@@ -43,7 +44,7 @@ def gen_settings(rng: random.Random) -> Dict[str, Any]:
         "max_number_tree_insertion_results": rng.randint(1, 5),
         "enforce_unique_trees_in_queue": rng.random() < 0.3,
         "tree_insertion_methods": None if rng.random() < 0.6 else rng.randint(0, 7),
-        "activate_unsat_support": rng.random() < 0.2,
+        "activate_unsat_support": rng.random() < profile.get("unsat_prob", 0.2),
         "grammar_unwinding_threshold": 4 if rng.random() < 0.6 else rng.randint(1, 5),
         "enable_optimized_z3_queries": rng.random() < 0.5,
         "global_fuzzer": rng.random() < 0.2,
@@ -86,18 +87,19 @@ def make_plan(run_seed: int, profile: Dict[str, Any]) -> Dict[str, Any]:
                 "grammar": grammar_i,
                 "formula": formula,
                 "formula_text": print_formula(formula),
-                "settings": gen_settings(rng),
+                "settings": gen_settings(rng, profile),
                 "cost": gen_cost(rng),
             }
         )
     ops: List[List[Any]] = []
     n_ops = rng.randint(3, profile.get("max_ops", 12))
+    p_clock = profile.get("clock_op_prob", 0.08)
     for _ in range(n_ops):
         r = rng.random()
-        if r < 0.85:
+        if r < 0.92 - p_clock:
             ops.append(["solve", rng.randrange(n_solvers)])
-        elif r < 0.93:
-            ops.append(["clock", rng.choice([0.5, 2.0, 11.0, 100.0, -5.0, -100.0, 1e6])])
+        elif r < 0.92:
+            ops.append(["clock", rng.choice([0.5, 2.0, 2.5, 3.0, 11.0, 100.0, -5.0, -100.0, 1e6])])
         else:
             ops.append(["heal"])
     # late calls: make sure every solver is called at least 2 more times at the end
@@ -128,7 +130,7 @@ def add_api_ops(ops, n_solvers, rng):
     for op in ops:
         out.append(op)
         if op[0] == "solve" and rng.random() < 0.6:
-            kind = rng.choice(["check", "check", "parse", "repair", "mutate", "check_mut", "parse_mut", "repair_mut"])
+            kind = rng.choice(["check", "check", "parse", "repair", "mutate", "check_mut", "parse_mut", "repair_mut", "check_tree", "check_tree"])
             out.append([kind, op[1], rng.randrange(1 << 30)])
     return out
 
